@@ -30,6 +30,8 @@ TUS = {
     "t_mask": {"sources": ["t_mask.cpp"], "parts": INT_PARTS + FLT_PARTS},
     "t_mem": {"sources": ["t_mem.cpp"], "parts": INT_PARTS + FLT_PARTS},
     "t_memfp": {"sources": ["t_mem.cpp"], "parts": INT_PARTS + FLT_PARTS, "flags": ["-DVX_FOOTPRINT=1"]},
+    "t_denom": {"sources": ["t_denom.cpp"], "parts": INT_PARTS},
+    "t_denomv": {"sources": ["t_denom.cpp"], "parts": INT_PARTS, "flags": ["-DVX_DENOM_VECTOR=1"]},
     "t_select": {"sources": ["t_select.cpp"], "parts": INT_PARTS + FLT_PARTS},
 }
 
@@ -198,5 +200,26 @@ PROPS = {
         "explanation": "every call under a SIGSEGV/SIGBUS handler; oracle: no signal, loaded lanes correct, canaries outside the stored elements intact. Reads are observable at page "
                        "granularity only (an over-read that stays inside the page is invisible); the verdict on masked-store fault suppression is for this CPU",
         "assumptions": ["read footprint is observable only at page granularity", "a failing case is replayed by repeating the deterministic enumeration for its subject"],
+    },
+    "C14": {
+        "tus": ["t_denom"],
+        "configs": scalar_cfgs,
+        "rule": "for each of the eight integer types and every divisor of the alphabet the real Denominator<T> object is constructed (under a SIGFPE guard) and checked against every "
+                "numerator: 8-bit all (n,d) pairs; 16-bit every divisor x lattice/derived numerators (all 2^32 pairs in thorough); 32/64-bit divisors +-1..2^11 (2^16 thorough), the L lattice "
+                "(2^k, 2^k+-1, extremes), 512 (8192) values spread over the range; numerators 0, +-1, MIN, MAX, L, the multiples of d nearest both range ends and their neighbours. "
+                "Only n == MIN with d == -1 is excluded. non-trivial: |quotient| >= 2.",
+        "explanation": "state = the constructed denominator object; for every state value() and div, /, %, /=, %= on every numerator are compared with C++ n/d and n%d; div is called "
+                       "unqualified (hidden friend, ADL); a signal while constructing or dividing is a violation",
+        "assumptions": ["the shift operators of the class are outside the statement and are not exercised"],
+    },
+    "C15": {
+        "tus": ["t_denomv"],
+        "configs": int_cfgs,
+        "rule": "for every integer vector type: Denominator<V> built from vectors of W different non-zero divisors walking the divisor alphabet (8-bit: every divisor; 16-bit: every divisor; "
+                "32/64-bit: +-1..2^8 (2^11 thorough), K, L members, spread values), each checked against every numerator of the numerator alphabet with every lane at a different phase; "
+                "the broadcast constructor Denominator<V>(Denominator<T>(d)) for every d (8-bit, thorough) or the lattice divisors, compared with the model for all lanes. non-trivial: |quotient| >= 2.",
+        "explanation": "state = the constructed vector denominator; value() and div, /, %, /=, %= per lane against C++ n/d and n%d; lanes hold different divisors and numerators so a "
+                       "cross-lane dependency shows as a wrong lane; a missing broadcast constructor or an inaccessible value() is a violation",
+        "assumptions": ["Denominator<int64_t>(-1) (a C14 finding: it traps) is not executed on the broadcast path"],
     },
 }
